@@ -1,5 +1,8 @@
 import HbsModel.Registry
 import HbsModel.Lemmas.RM
+import HbsModel.Props.C02
+import HbsModel.Props.C10
+import HbsModel.Lemmas.Assoc
 /-
   C18  A render error points at the tag that failed.
 -/
@@ -167,5 +170,73 @@ theorem template_error_positioned (reg : Registry) (root : Json) (fuel : Nat) (n
       exact elems_error_positioned reg root name fuel es m _ out o1 e1 hlen hr
     | panic s => rw [hr] at h; simp at h
     | fuel => rw [hr] at h; simp at h
+
+/-! ### the position of a failing tag, from the source text -/
+
+/-- **a missing variable in strict mode points at its tag**: for EVERY text `L` that may stand before a tag and EVERY
+    text `R` without `{{`, the template `L ++ {{v}} ++ R` registered under `name` and rendered in strict mode on data
+    without a field `v` fails with MissingVariable("v"), the error names the template and carries the line and column
+    of the tag's `{{` in the source (pest's line/column of offset |L|), and exactly `L` was written before it.  From
+    the source string through the regenerated grammar, compile2's position table and the renderer. -/
+theorem missing_variable_points_at_the_tag (r : Registry) (fs : FS) (name L R : Str) (data : Json)
+    (hdev : r.dev = false) (hstrict : r.strict = true)
+    (hL : L = [] ∨ PlainText.TextBeforeTag L) (hR : PlainText.noOpen R)
+    (hnohelper : assocGet r.helpers ['v'] = none)
+    (hsafe : Spec.indexSafe data [['v']] = true) (hmiss : Spec.descend data [['v']] = none) :
+    ∃ r', r.registerTemplateString name (L ++ C02.valueTag ++ R) = .ok r' ∧
+      r'.render fs name data = .err
+        { reason := .missingVariable (some ['v']), name := some name,
+          line := some (Pest.lineCol (L ++ C02.valueTag ++ R) L.length).1, col := some (Pest.lineCol (L ++ C02.valueTag ++ R) L.length).2 } L := by
+  obtain ⟨extra, hcomp⟩ := PlainText.compile_text_value_text_pos L _ _ { name := some name, isPartial := false, preventIndent := r.preventIndent }
+    hL (PlainText.textAfterTag_split R hR)
+  rw [← PlainText.split_ws R] at hcomp
+  unfold Registry.registerTemplateString
+  rw [show C02.valueTag = PlainText.valSrc from rfl, hcomp]
+  refine ⟨_, rfl, ?_⟩
+  generalize hT : Tmpl.mk (some name) ((PlainText.leftT L L).elements ++ [Elem.expr PlainText.valHT] ++ if R = [] then [] else [Elem.raw R])
+    ((PlainText.leftT L L).mapping ++ [Pest.lineCol (L ++ PlainText.valSrc ++ R) L.length] ++ extra) = T
+  have hload : (r.registerTemplate name T).getOrLoad fs name = .ok T := by
+    simp [Registry.getOrLoad, Registry.getOrLoadOptional, Registry.registerTemplate, hdev, assocInsert, assocGet_insert_same]
+  have hdev' : (r.registerTemplate name T).dev = false := by simp [Registry.registerTemplate, hdev]
+  have hs' : (r.registerTemplate name T).strict = true := by simp [Registry.registerTemplate, hstrict]
+  have hh' : assocGet (r.registerTemplate name T).helpers ['v'] = none := by simp [Registry.registerTemplate, hnohelper]
+  generalize r.registerTemplate name T = reg at *
+  simp only [Registry.render, Registry.renderToOutput, hload, Registry.renderResolved, hdev', Bool.not_false, ↓reduceIte]
+  subst hT
+  -- the render: (the text,) then the failing expression
+  have hreg : ∀ (reg : Registry), reg.strict = true → assocGet reg.helpers ['v'] = none →
+      ∀ (rc : RC) (out : Out) (fuel : Nat), rc.blocks = [{}] → rc.modifiedCtx = none → assocGet rc.localHelpers ['v'] = none →
+      renderElem reg data (fuel + 4) (.expr PlainText.valHT) rc out = .err (strictError (some ['v'])) out := by
+    intro reg hs hh rc out fuel hb hmc hl
+    have hev : evaluate2 data (.relative [.named ['v']] ['v']) rc out = .ok .missing rc out := by
+      have := C01.navigate_current_path_scope data {} [] ['v'] [] rc out (by simp [getInBlockParams, assocGet]) rfl (by simpa using hsafe)
+      simp only [C01.names, List.map_cons, List.map_nil] at this
+      simp only [evaluate2, RM.bind_def, RM.bnd_apply, RM.get_apply, hb, this, C01.blockValue, Spec.descend]
+      simp only [Option.bind]
+      have hj' : (Spec.step data ['v']).bind (fun v' => Spec.descend v' []) = none := by simpa [Spec.descend] using hmiss
+      simp [Spec.descend] at hj' ⊢
+      rw [hj']
+    have := C10.strict_missing_is_error reg data (fuel + 0) PlainText.valHT (.relative [.named ['v']] ['v']) rc out rfl rfl hl hh hmc hs hev
+    simp only [renderElem]
+    exact this
+  generalize hlc : Pest.lineCol (L ++ PlainText.valSrc ++ R) L.length = lc
+  generalize (if R = [] then [] else [Elem.raw R]) = tail
+  have hf : renderFuel = (3993 + 4) + 1 + 1 + 1 := by decide
+  unfold runRM
+  by_cases hLe : L = []
+  · subst hLe
+    have herr := hreg reg hs' hh' { ({ rootTemplate := some name } : RC) with currentTemplate := some name } {} (3993 + 1) rfl rfl rfl
+    rw [hf]
+    simp only [PlainText.leftT, ↓reduceIte, Tmpl.empty, Tmpl.elements, Tmpl.mapping, Tmpl.name, List.nil_append, List.cons_append,
+      renderTemplate, renderElems, RM.bind_def, RM.bnd_apply, RM.get_apply, RM.modifyAux_apply, RM.mapErr, herr]
+    simp [decorateRender, strictError, RenderError.of, Out.text]
+  · have hwr := indentAwareWrite_plain L { ({ rootTemplate := some name } : RC) with currentTemplate := some name } {} hLe rfl (by simp)
+    have herr := hreg reg hs' hh' { rootTemplate := some name, currentTemplate := some name, contentProduced := true, trailingNewline := endsWithNewline L, indentBeforeWrite := endsWithNewline L } { segs := [L], count := 1 } 3993 rfl rfl rfl
+    rw [hf]
+    simp only [PlainText.leftT, hLe, ↓reduceIte, Tmpl.elements, Tmpl.mapping, Tmpl.name, List.nil_append, List.cons_append,
+      renderTemplate, renderElems, renderElem, RM.bind_def, RM.bnd_apply, RM.get_apply, RM.modifyAux_apply, RM.mapErr, hwr, List.drop]
+    simp only [renderElem] at herr
+    simp only [herr]
+    simp [decorateRender, strictError, RenderError.of, Out.text]
 
 end Hbs.C18
